@@ -72,6 +72,7 @@ def gen_case(rng: Rng, i: int, tier: str):
         case["tree2"] = tree.gen_tree(r, maxdepth=2, nmax=4, name_style="ascii", links=False, block=32768, maxlen=2000)
         case["dotname"] = r.chance(0.3)
         case["append_two"] = rng.sub("a2").chance(0.5)
+        case["odir_link"] = rng.sub("olink").chance(0.3)
     elif kind == "volumes":
         case["size"] = r.pick(SIZES_OK) if r.chance(0.75) else r.pick(SIZES_BAD)
     else:
@@ -196,7 +197,12 @@ def run_case(case):
                     viol("exit_0_on_failure", "t", "'t' (which cannot ask for a password) exited 0 on an encrypted archive", fault="no_password")
                 odir = os.path.join(scratch, "out1")
                 os.makedirs(odir)
-                st, out, err = cli(["x"] + (["-P"] if pw else []) + [arc] + (([] if case.get("odir_omit") else ["."]) if not case["odir"] else [odir]) + (["--verbose"] if case["verbose"] else []),
+                odir_arg = odir
+                if case["odir"] and case.get("odir_link"):
+                    # the output directory named relatively and reached through a symbolic link to a directory
+                    os.symlink(odir, os.path.join(work, "lnk-out"))
+                    odir_arg = "lnk-out"
+                st, out, err = cli(["x"] + (["-P"] if pw else []) + [arc] + (([] if case.get("odir_omit") else ["."]) if not case["odir"] else [odir_arg]) + (["--verbose"] if case["verbose"] else []),
                                    cwd=odir if not case["odir"] else work, password=pw)
                 if st != 0:
                     viol("intact_archive_fails", "x", "'x' of an intact archive exit %r: %r" % (st, (out + err)[-300:]))
